@@ -485,13 +485,14 @@ class StmtMixin:
         cont_assigned = [n for n in assigned_names(body, continuing_only=True) if n in fr.env]
         rec = LoopRecord(len(run.loops), st, it, dict(fr.env), fr.func.qual)  # type: ignore[arg-type]
         rec.carried = list(all_assigned)
+        rec.__dict__["loop_key"] = lid
         run.loops.append(rec)
         run.effect("loop", lid, None, it, st)
         # containers that the body may mutate in place (x.append(..), f(.., x)) have unknown content from here on;
         # converted in place because callers may hold the same object
         for n in touched_names(body):
             v = fr.env.get(n)
-            if isinstance(v, SList) and v.mode == "concrete":
+            if isinstance(v, SList) and v.mode == "concrete" and v.pytype != "tuple":
                 v.__dict__["entry"] = list(v.items)
                 v.__dict__["loop"] = lid
                 v.mode = "carried"
